@@ -11,10 +11,10 @@ import numpy as np
 from vf import runner, gen, calls
 
 LEVEL = "exploration"
-RENAMINGS = [
-    {"a": "z", "b": "y", "c": "x", "d": "w", "i": "a", "u": "v", "y": "b", "z": "c"},                 # reverses alphabetical order
-    {"a": "b", "b": "c", "c": "d", "d": "a", "i": "u", "u": "i", "y": "z", "z": "y"},                 # cyclic shift
-    {"a": "axis_with_a_long_name", "b": "B2", "c": "_c", "d": "dd", "i": "index", "u": "unit", "y": "yy", "z": "Zz"},
+RENAMINGS = [      # (targets avoid x, y, mask, tensor, shift: einx.where / roll / ... take parameters of these names, so no size could be passed for such an axis)
+    {"a": "z", "b": "w", "c": "v", "d": "t", "i": "a", "u": "s", "y": "b", "z": "c", "m": "k"},       # reverses alphabetical order
+    {"a": "b", "b": "c", "c": "d", "d": "a", "i": "u", "u": "i", "y": "z", "z": "q", "m": "n"},       # cyclic shift
+    {"a": "axis_with_a_long_name", "b": "B2", "c": "_c", "d": "dd", "i": "index", "u": "unit", "y": "yy", "z": "Zz", "m": "M_"},
 ]
 
 
@@ -94,7 +94,8 @@ def work(chunk):
                     for p in admissible_perms(t):
                         d2 = gen._replace_tensor(d, 0, ti, tuple(t[i] for i in p))
                         desc2 = gen.show(d2)
-                        args2 = [a.copy() for a in args]; args2[ti] = np.ascontiguousarray(np.transpose(args[ti], p))
+                        if gen.OP_FAMILY[d.op] == "update_at" and ti == 0: continue     # the default relation for the in-place target involves the output expression too
+                        args2 = [a.copy() for a in args]; args2[ti] = np.array(np.transpose(args[ti], p), copy=True, order="C")     # a real copy: *_at write into their first argument
                         o = outcome(lambda: getattr(einx, d.op)(desc2, *args2, **sizes, **call.kw))
                         hist["relations"] += 1; hist["input-permutation"] += 1
                         if gen.OP_FAMILY[d.op] == "update_at" and ti == 0: continue     # the default relation for the in-place target involves the output expression too
@@ -122,7 +123,8 @@ def work(chunk):
                         d2 = gen._replace_tensor(d, 0, ti, t[:i] + (("g", (t[i], t[i + 1])),) + t[i + 2:])
                         desc2 = gen.show(d2)
                         sh = call.shapes[ti]
-                        args2 = [a.copy() for a in args]; args2[ti] = args[ti].reshape(sh[:i] + (sh[i] * sh[i + 1],) + sh[i + 2:])
+                        if gen.OP_FAMILY[d.op] == "update_at" and ti == 0: continue
+                        args2 = [a.copy() for a in args]; args2[ti] = args[ti].reshape(sh[:i] + (sh[i] * sh[i + 1],) + sh[i + 2:]).copy()
                         sizes2 = dict(sizes)
                         for n in names:
                             if n in (call.env or {}) and not isinstance(call.env[n], tuple): sizes2[n] = call.env[n]
@@ -235,7 +237,7 @@ def gen_unit(u):
 
 QUICK = [(["id"], 3, 1), (["id"], 4, 0), (["sum", "max"], 3, 0), (["sum"], 2, 1), (["add", "subtract"], 2, 0), (["add"], 1, 1), (["dot"], 3, 0), (["get_at"], 2, 0), (["add_at", "set_at"], 2, 0), (["flip", "argmax", "sort", "softmax"], 3, 0),
          (["flip", "argmax"], 2, 1)]
-THOROUGH = [(["id"], 3, 1), (["id"], 4, 0), (["id"], 2, 2), (["sum", "max", "mean"], 3, 1), (["add", "subtract"], 2, 1), (["add"], 3, 0), (["where"], 1, 1), (["dot"], 3, 0), (["dot"], 2, 1),
+THOROUGH = [(["id"], 3, 1), (["id"], 4, 0), (["sum", "max", "mean"], 3, 1), (["add", "subtract"], 2, 1), (["add"], 3, 0), (["where"], 1, 1), (["dot"], 3, 0), (["dot"], 2, 1),
             (["get_at"], 3, 0), (["get_at"], 1, 1), (["add_at", "set_at"], 2, 0), (["add_at"], 1, 1), (["flip", "argmax", "sort", "softmax", "roll", "argsort"], 3, 1)]
 
 
